@@ -1,6 +1,9 @@
 SPECIFICATION Spec
+CONSTANT StickySw = FALSE
 CONSTANT ExtMarker = FALSE
 INVARIANT InvReply
 INVARIANT InvSwitches
 INVARIANT InvSecond
+INVARIANT InvSecondReply
+INVARIANT InvSecondSwitches
 CHECK_DEADLOCK FALSE
